@@ -65,6 +65,7 @@ def _strategy(draw):
         if cls == "coarse":
             a["freq"] = tl.freq_multiple(freq, 2)     # equals the frequency of some grids, coarser than others
             a["start"] = a["end"] = None
+            a["wacc"] = draw(st.sampled_from([0.0, 0.05, 0.4]))     # several coarse assets with the same window, own discounting
         if a["type"] == "structured" and draw(st.booleans()):
             a["start"], a["end"] = draw(st.integers(0, 1)), draw(st.integers(T0 - 2, T0))   # both ends clip the inner assets
             for x in a["assets"]:
@@ -78,6 +79,11 @@ def _strategy(draw):
             if draw(st.booleans()):
                 a["shutdown_ramp_lower_bounds"] = [0.5 * a["min_cap"]]
                 a["shutdown_ramp_upper_bounds"] = [0.5 * a["min_cap"]]
+            if draw(st.booleans()):
+                # the caller's float arrays, and a ramp frequency that equals the frequency of some of the grids
+                a["profile_form"] = "array"
+                if draw(st.booleans()):
+                    a["ramp_freq"] = freq
         # interval dictionaries in the forms that get normalised
         if a["type"] in ("simple", "contract", "multi") and draw(st.booleans()):
             v = a["max_cap"] if isinstance(a["max_cap"], (int, float)) else 1.0
